@@ -139,7 +139,19 @@ func verifC13Dump(s *Store) VerifC13Out {
 				k := it.Item().KeyCopy(nil)
 				v, _ := it.Item().ValueCopy(nil)
 				if idx == URIToIDIndexID {
-					o.U2I = append(o.U2I, verifUI{string(k[2:]), binary.BigEndian.Uint64(v)})
+					// the id of every identifier that has an index record, as the READ side resolves it (GetPredicateID
+					// for CURIEs, getIDForURI otherwise - the lookup GetEntity and relation queries start with); an
+					// identifier the read side cannot resolve is left out, an id that differs from the record is reported
+					u := string(k[2:])
+					raw := binary.BigEndian.Uint64(v)
+					if rid, ok := verifC13ReadID(s, u); ok {
+						o.U2I = append(o.U2I, verifUI{u, rid})
+						if rid != raw {
+							o.Msg += fmt.Sprintf("read side gives %d for %s, the record says %d; ", rid, u, raw)
+						}
+					} else {
+						o.Msg += fmt.Sprintf("read side cannot resolve %s (record: %d); ", u, raw)
+					}
 				} else {
 					o.I2U = append(o.I2U, verifUI{string(v), binary.BigEndian.Uint64(k[2:])})
 				}
@@ -150,6 +162,17 @@ func verifC13Dump(s *Store) VerifC13Out {
 	})
 	o.Stored = verifC13Stored(s)
 	return o
+}
+
+func verifC13ReadID(s *Store, u string) (uint64, bool) {
+	if strings.HasPrefix(u, "ns") {
+		rid, err := s.GetPredicateID(u, nil)
+		return rid, err == nil
+	}
+	txn := s.database.NewTransaction(false)
+	defer txn.Discard()
+	rid, exists, err := s.getIDForURI(txn, u)
+	return rid, err == nil && exists
 }
 
 // verifC13Stored scans every stored entity version: the internal id in its key belongs to the identifier in
